@@ -60,6 +60,27 @@ func isReflectNew(v ssa.Value) *ssa.Call {
 	if f := cl.Call.StaticCallee(); f != nil && core.FuncKey(f) == "reflect.New" {
 		return cl
 	}
+	// a one-line constructor of the package (freshPtr(t)): every return is a reflect.New made
+	// by that call, so each call of the constructor is a fresh holder, as reflect.New is
+	if f := cl.Call.StaticCallee(); f != nil && f.Pkg != nil && strings.HasPrefix(f.Pkg.Pkg.Path(), core.Module) && len(f.Blocks) > 0 && len(f.Blocks) <= 3 {
+		rets := core.Returns(f)
+		if len(rets) == 0 {
+			return nil
+		}
+		for _, r := range rets {
+			if len(r.Results) != 1 {
+				return nil
+			}
+			in, ok := core.Canon(core.RetVal(r, 0)).(*ssa.Call)
+			if !ok {
+				return nil
+			}
+			if g := in.Call.StaticCallee(); g == nil || core.FuncKey(g) != "reflect.New" {
+				return nil
+			}
+		}
+		return cl
+	}
 	return nil
 }
 
